@@ -402,3 +402,54 @@ Proof.
   intros H W K. destruct (edited_inside w k g tip t t' (graft_edited t g t' idx tip H W) K) as [I _].
   exact I.
 Qed.
+
+(** * GraftTreeOnTip is accepted whatever the names in the grafted tree *)
+Fixpoint has_tip_child (tip : string) (t : utree) : bool :=
+  match t with
+  | UNode _ _ sl =>
+    existsb (fun s : slot => match s with
+                             | Some (_, ch) => (is_tip ch && String.eqb (uname ch) tip) || has_tip_child tip ch
+                             | None => false end) sl
+  end.
+
+Lemma graft_sub_defined tip g' t :
+  has_tip_child tip t = true -> exists t', graft_sub tip g' t = Some t'.
+Proof.
+  induction t as [n c sl IH] using utree_ind'. intros H. simpl in H. simpl.
+  match goal with
+  | |- exists t', match ?F sl with _ => _ end = _ => assert (G : exists sl', F sl = Some sl')
+  end.
+  { induction IH as [|[[e ch]|] r Hs _ IHr]; simpl in H; [discriminate| |].
+    - destruct (is_tip ch && String.eqb (uname ch) tip) eqn:T; [eauto|]. simpl in H.
+      destruct (graft_sub tip g' ch) as [ch'|] eqn:E; [eauto|].
+      destruct (has_tip_child tip ch) eqn:Hc.
+      + destruct (Hs eq_refl) as [t' X]. congruence.
+      + simpl in H. destruct (IHr H) as [sl' ->]. eauto.
+    - destruct (IHr H) as [sl' ->]. eauto. }
+  destruct G as [sl' ->]. eauto.
+Qed.
+
+(** the only conditions: an index that holds the name, and a tip of that name below the root;
+    nothing is asked of the names of the grafted tree (it may re-use the name of the replaced
+    tip, or any other) *)
+Theorem graft_accepts t idx tip g :
+  idx <> [] -> In tip idx -> (is_tip t && String.eqb (uname t) tip) = false ->
+  has_tip_child tip t = true ->
+  exists t', graft t idx tip g = Ok t'.
+Proof.
+  intros Hi Ht Hr Hc. unfold graft. destruct idx as [|i0 ir]; [congruence|].
+  assert (name_mem tip (i0 :: ir) = true) as ->.
+  { unfold name_mem. apply existsb_exists. exists tip. split; auto. apply String.eqb_refl. }
+  simpl negb. rewrite Hr. destruct (graft_sub_defined tip (add_up_end g) t Hc) as [t' ->]. eauto.
+Qed.
+
+(** non-vacuity: (l1:1,x:2,y:3); grafted on l1 with (l1:1,z:1); *)
+Lemma graft_reuse_example :
+  exists t', graft (UNode "" [] [Some (mkE 1 nilv nilv [], UNode "l1" [] [None]);
+                                 Some (mkE 2 nilv nilv [], UNode "x" [] [None]);
+                                 Some (mkE 3 nilv nilv [], UNode "y" [] [None])])
+                   ["l1"; "x"; "y"]%string "l1"
+                   (UNode "" [] [Some (mkE 1 nilv nilv [], UNode "l1" [] [None]);
+                                 Some (mkE 1 nilv nilv [], UNode "z" [] [None])]) = Ok t' /\
+             leaves t' = ["l1"; "z"; "x"; "y"]%string.
+Proof. eexists. split; vm_compute; reflexivity. Qed.
